@@ -494,6 +494,14 @@ fn c14_op(op: &Op, i: usize, stats: &mut Stats, log: &mut LogHash, vs: &mut Vec<
         let got = VouchedTime::new(local, base, voucher);
         let chk = VouchedTime::check(local, base, voucher);
         log.u64(got.is_ok() as u64);
+        {
+            let mut sig = LogHash::new();
+            sig.u64(a[0] % 14);
+            sig.u64(a[1] % 20);
+            sig.u64(a[2] % 4);
+            sig.u64(want as u64);
+            stats.state(sig.0);
+        }
         if got.is_ok() != want || chk.is_ok() != want {
             push_v(vs, "C14", if want { "C14.rejects_valid" } else { "C14.accepts_invalid" }, format!("VouchedTime::new(local {} ms, base {}, voucher {}) is {} / check is {}, the rule says {}", local_ms, base, if valid { "valid" } else { "invalid" }, if got.is_ok() { "Ok" } else { "Err" }, if chk.is_ok() { "Ok" } else { "Err" }, if want { "Ok" } else { "Err" }), i);
         }
@@ -529,6 +537,15 @@ fn c14_op(op: &Op, i: usize, stats: &mut Stats, log: &mut LogHash, vs: &mut Vec<
         });
         let want = !fails && window_ok(now_ms.clamp(MIN_MS, MAX_MS), base, valid);
         log.u64(got.is_ok() as u64);
+        {
+            let mut sig = LogHash::new();
+            sig.u64(100 + kind);
+            sig.u64(a[1] % 20);
+            sig.u64(a[2] % 4);
+            sig.u64(want as u64);
+            sig.u64((now_ms < 0) as u64 + 2 * ((0..3000).contains(&now_ms)) as u64);
+            stats.state(sig.0);
+        }
         if seen.get().map(|t| t.unix_timestamp_nanos() / 1_000_000) != Some(now_ms.clamp(MIN_MS, MAX_MS)) {
             push_v(vs, "C14", "C14.now_clock", "now() handed the provider a time that is not the current clock".into(), i);
         }
@@ -565,9 +582,9 @@ impl World for VtimeWorld {
     }
     fn runs(&self, ask: Ask) -> u64 {
         if ask.thorough {
-            600_000
+            1_500_000
         } else {
-            16_000
+            50_000
         }
     }
     fn process_per_run(&self) -> bool {
